@@ -304,19 +304,30 @@ def run(repo, chk):
         elif base == "UnaryOperator":
             if op == "sign":
                 ok1 = len(pops) == 1 and re.sub(r"\s", "", result) in ("if(%s>=0)res=1.0;elseres=-1.0" % pops[0],)
+                # Python side: sign() evaluated on native numbers on both sides of and at the boundary
                 pyf = repo.func(EXPR, "sign")
-                pysrc = unparse(pyf)
-                okpy = "val >= 0" in pysrc and "return 1" in pysrc and "return -1" in pysrc
-                chk.expect(ok1 and okpy, "R-C15-2", "SIGN: +1 for arg >= 0 else -1 on both sides", where, found="cpp: %s ; py: %s" % (result, okpy))
+                pvals = {x: eval_native(repo, pyf, {pyf.args.args[0].arg: x}) for x in (-3, -0.5, -1e-300, 0, 0.0, 1e-300, 2, 1.5)}
+                okpy = all(isinstance(r, (int, float)) and not isinstance(r, bool) and r == (1 if x >= 0 else -1) for x, r in pvals.items())
+                chk.expect(ok1 and okpy, "R-C15-2", "SIGN: +1 for arg >= 0 else -1 on both sides", where, found="cpp: %s ; py: %s" % (result, "ok" if okpy else pvals))
+                opf = method_of(repo, cdef, "operation")
+                if opf is not None and opf.args.args:
+                    vv = sp.Symbol("v", real=True)
+                    o_ = SymExec(call_hook=py_calls).run(opf, {opf.args.args[0].arg: vv})
+                    chk.expect(len(o_) == 1 and isinstance(o_[0].ret, sp.Basic) and o_[0].ret == sp.sign(vv), "R-C15-2", "%s.operation is sign(val)" % cname, loc(EXPR, opf),
+                               found=str(o_[0].ret) if o_ else None)
             else:
                 ok1 = len(pops) == 1 and op in UN_CPP and result == "res=" + UN_CPP[op].format(a=pops[0])
                 chk.expect(ok1, "R-C15-2", "C++ %s computes %s(arg)" % (op.upper(), op), where, expected="res=" + UN_CPP.get(op, "?").format(a="arg"), found="pops=%s %s" % (pops, result))
-                opf = [n for n in cdef.body if isinstance(n, ast.FunctionDef) and n.name == "operation"]
-                if opf:
-                    r = [s for s in walk(opf[0]) if isinstance(s, ast.Return)]
-                    txt = unparse(r[0].value) if r else ""
+                opf = method_of(repo, cdef, "operation")
+                if opf is not None and opf.args.args:
+                    # the operation applied to a symbol denotes the function of its opcode (whatever the parameter / temporaries are called)
+                    vv = sp.Symbol("v", real=True)
+                    wantf = {"negation": -vv, "abs": sp.Abs(vv)}.get(op, getattr(sp, op)(vv) if hasattr(sp, op) else None)
+                    o_ = [x for x in SymExec(call_hook=py_calls).run(opf, {opf.args.args[0].arg: vv})]
+                    gotf = o_[0].ret if len(o_) == 1 and o_[0].raised is None else None
                     want = "-val" if op == "negation" else "%s(val)" % op
-                    chk.expect(txt == want, "R-C15-2", "%s.operation is %s" % (cname, want), loc(EXPR, opf[0]), found=txt)
+                    chk.expect(wantf is not None and isinstance(gotf, sp.Basic) and is_zero(gotf - wantf), "R-C15-2", "%s.operation is %s" % (cname, want), loc(EXPR, opf),
+                               expected=str(wantf), found=str(gotf))
         elif cname == "IfElseOperator":
             ok3 = len(pops) == 3 and result == "if(%s==1){res=%s;}else{res=%s;}" % (pops[2], pops[1], pops[0])
             ok3 = ok3 or (len(pops) == 3 and re.sub(r"[{}]", "", result) == "if(%s==1)res=%s;elseres=%s" % (pops[2], pops[1], pops[0]))
@@ -325,8 +336,33 @@ def run(repo, chk):
             r = re.sub(r"[{}]", "", result)
             ok3 = len(pops) == 3 and r == "if(%s>=%s&&%s<=%s)res=1.0;elseres=0.0" % (pops[2], pops[1], pops[2], pops[0])
             chk.expect(ok3, "R-C15-2", "C++ INEQUALITY pops ub, lb, body and yields 1.0 iff lb <= body <= ub", where, found="pops=%s %s" % (pops, result))
+            # Python side: evaluate() run on concrete bounds 1, 3 and body values below / at / between / at / above them, body leaf or not
             ev = repo.func(EXPR, "InequalityOperator.evaluate")
-            chk.expect("self._lb.value <= body_val <= self._ub.value" in unparse(ev), "R-C15-2", "InequalityOperator.evaluate is lb <= body <= ub", loc(ev))
+            f_body, f_lb, f_ub = ctor_fields(repo, "InequalityOperator")
+            bad_pts = []
+            for leaf in (True, False):
+                for b in (0, 1, 2, 3, 4, 0.999, 3.001):
+                    vals = {"self.%s.value" % f_lb: 1, "self.%s.value" % f_ub: 3}
+                    if leaf:
+                        vals["self.%s.value" % f_body] = b
+
+                    def ch(name, node, args, kwargs, st, ex, recv, leaf=leaf):
+                        if name == "self.%s.is_leaf" % f_body:
+                            return leaf
+                        return NotImplemented
+
+                    def ah(base, attr, st, vals=vals):
+                        if isinstance(base, Opaque) and (base.text + "." + attr) in vals:
+                            return vals[base.text + "." + attr]
+                        return NotImplemented
+                    ex = SymExec(call_hook=ch, attr_hook=ah)
+                    vd = {} if leaf else {"self.%s" % f_body: b}
+                    outs = ex.run(ev, {ev.args.args[1].arg: vd, "self": Opaque("self")})
+                    r_ = outs[0].env[ev.args.args[1].arg].get("self") if len(outs) == 1 else None
+                    if not (isinstance(r_, bool) and r_ == (1 <= b <= 3)):
+                        bad_pts.append((leaf, b, r_))
+            chk.expect(not bad_pts, "R-C15-2", "InequalityOperator.evaluate is lb <= body <= ub", loc(ev), expected="True exactly for 1 <= body <= 3 (bounds 1, 3)",
+                       found=["body %s=%s -> %s" % ("leaf" if l else "expr", b, r) for l, b, r in bad_pts])
     chk.expect("stack[stack_ndx]=res" in cxx.norm(body) and "++stack_ndx" in cxx.norm(body), "R-C15-2", "_evaluate pushes the result of every operation", CPP)
     chk.floor("R-C15-2", 4 + 4 + 2 + 8 + 2 + 18)
 
@@ -398,43 +434,67 @@ def run(repo, chk):
             chk.expect(sp.simplify(dd["self._then_arg"] - wt) == 0 and sp.simplify(dd["self._else_arg"] - we) == 0 and dd["self._if_arg"] == 0, "R-C15-3",
                        "IfElseOperator.diff_down routes der to the selected branch only", loc(dfn), found=str(dd))
         elif cname == "InequalityOperator":
-            chk.expect(all(isinstance(s, (ast.Pass, ast.Expr)) for s in dfn.body), "R-C15-3", "InequalityOperator.diff_down adds nothing", loc(dfn))
+            f_body = ctor_fields(repo, "InequalityOperator")[0]
+            der = {"self": D, "self." + f_body: sp.Integer(0)}
+            outs = SymExec(call_hook=py_calls).run(dfn, {"val_dict": {"self." + f_body: v, "self": sp.Symbol("f")}, "der_dict": der, "self": Opaque("self")})
+            chk.expect(all(is_zero(sp.sympify(o.env["der_dict"]["self." + f_body])) and not o.stores() for o in outs if o.raised is None), "R-C15-3",
+                       "InequalityOperator.diff_down adds nothing", loc(dfn), found=[str(o.env["der_dict"]) for o in outs])
     chk.floor("R-C15-3", 5 * 2 + 2 + 11 + 2)
-    # reflected operators keep operand order
+    # operator overloads: the value denoted by each method of ExpressionBase, for `other` = 0, 1 and two other numbers, obtained by running the
+    # method (whatever its statement shape) with  self._binary_operation_helper(x, K) := self <op of K> x  and  Float(x) := x
     eb = repo.cls(EXPR, "ExpressionBase")
-    meths = repo.methods(eb)
-    for nm, cls_, opn in (("__rsub__", "SubtractOperator", ast.Sub), ("__rtruediv__", "DivideOperator", ast.Div), ("__rpow__", "PowerOperator", ast.Pow),
-                          ("__radd__", "AddOperator", ast.Add), ("__rmul__", "MultiplyOperator", ast.Mult),
-                          ("__sub__", "SubtractOperator", None), ("__truediv__", "DivideOperator", None), ("__pow__", "PowerOperator", None),
-                          ("__add__", "AddOperator", None), ("__mul__", "MultiplyOperator", None)):
-        f = meths.get(nm)
+    SELF = sp.Symbol("self", positive=True)
+    cls_op = {c: o for c, (b, o, _) in ops.items() if b == "BinaryOperator"}
+    sym_op = {"add": lambda a, b: a + b, "sub": lambda a, b: a - b, "mul": lambda a, b: a * b, "div": lambda a, b: a / b, "pow": lambda a, b: a ** b}
+
+    def overload_hook(name, node, args, kwargs, st, ex, recv):
+        if isinstance(node.func, ast.Attribute) and node.func.attr == "_binary_operation_helper" and len(args) == 2:
+            r = recv if recv is not None else ex.ev(node.func.value, st)
+            k = args[1].text if isinstance(args[1], Opaque) else None
+            if isinstance(r, sp.Basic) and cls_op.get(k) in sym_op:
+                return sym_op[cls_op[k]](r, ex.S(args[0]))
+            raise ExtractError("cannot interpret %s" % unparse(node))
+        if isinstance(node.func, ast.Attribute) and node.func.attr == "_unary_operation_helper" and len(args) == 1 and isinstance(args[0], Opaque) \
+                and ops.get(args[0].text, (None, None))[1] == "negation":
+            r = recv if recv is not None else ex.ev(node.func.value, st)
+            return -ex.S(r)
+        if name == "Float" and len(args) == 1:
+            return args[0]
+        return NotImplemented
+
+    def denotes(f, x):
+        r = eval_native(repo, f, {f.args.args[0].arg: SELF, f.args.args[1].arg: x}, overload_hook)
+        return r if isinstance(r, str) else sp.sympify(r)
+
+    probes = (sp.Rational(5, 2), 7)
+    for nm, cls_, refl in (("__rsub__", "SubtractOperator", True), ("__rtruediv__", "DivideOperator", True), ("__rpow__", "PowerOperator", True),
+                           ("__radd__", "AddOperator", True), ("__rmul__", "MultiplyOperator", True),
+                           ("__sub__", "SubtractOperator", False), ("__truediv__", "DivideOperator", False), ("__pow__", "PowerOperator", False),
+                           ("__add__", "AddOperator", False), ("__mul__", "MultiplyOperator", False)):
+        f = method_of(repo, eb, nm)
         if f is None:
             chk.bad("R-C15-3", "ExpressionBase.%s exists" % nm, loc(EXPR, eb))
             continue
-        rets = [r for r in f.body if isinstance(r, ast.Return)]
-        last = rets[-1].value if rets else None
-        if opn is None:
-            ok_r = isinstance(last, ast.Call) and last_attr(last) == "_binary_operation_helper" and unparse(last.func.value) == "self" and \
-                len(last.args) == 2 and unparse(last.args[0]) == "other" and unparse(last.args[1]) == cls_
-            chk.expect(ok_r, "R-C15-3", "ExpressionBase.%s builds %s(self, other)" % (nm, cls_), loc(f), found=unparse(last) if last is not None else None)
-        else:
-            ok_r = isinstance(last, ast.BinOp) and isinstance(last.op, opn) and unparse(last.left) == "Float(other)" and unparse(last.right) == "self"
+        if cls_op.get(cls_) not in sym_op:
+            raise AnchorError("binary operator class %s vanished" % cls_)
+        op_ = sym_op[cls_op[cls_]]
+        want = (lambda x: op_(sp.sympify(x), SELF)) if refl else (lambda x: op_(SELF, sp.sympify(x)))
+        got = {x: denotes(f, x if not isinstance(x, sp.Rational) or x.is_Integer else float(x)) for x in probes}
+        ok_r = all(not isinstance(g, str) and is_zero(g - want(x)) for x, g in got.items())
+        if refl:
             chk.expect(ok_r, "R-C15-3", "ExpressionBase.%s computes Float(other) <op> self (foreign value on the LEFT)" % nm, loc(f),
-                       "a reflected operator must keep the operand order of the source expression", found=unparse(last) if last is not None else None)
-    # short-cuts for 0 / 1 must be algebraic identities
-    ident = {"__add__": {"0": "self"}, "__sub__": {"0": "self"}, "__mul__": {"0": "0", "1": "self"}, "__truediv__": {"1": "self"}, "__pow__": {"0": "1", "1": "self"},
-             "__radd__": {"0": "self"}, "__rsub__": {"0": "-self"}, "__rmul__": {"0": "0", "1": "self"}, "__rtruediv__": {"0": "0"}, "__rpow__": {"0": "0", "1": "1"}}
-    for nm, table in sorted(ident.items()):
-        f = meths.get(nm)
-        if f is None:
-            continue
-        got = {}
-        for n in walk(f):
-            if isinstance(n, ast.If) and isinstance(n.test, ast.Compare) and unparse(n.test.left) == "other" and isinstance(n.test.ops[0], ast.Eq):
-                r = [x for x in n.body if isinstance(x, ast.Return)]
-                if r:
-                    got[unparse(n.test.comparators[0])] = unparse(r[0].value)
-        chk.expect(all(table.get(k) == v for k, v in got.items()), "R-C15-3", "ExpressionBase.%s constant short-cuts are identities" % nm, loc(f), expected=table, found=got)
+                       "a reflected operator must keep the operand order of the source expression", expected=str(want(probes[0])), found=str(got[probes[0]]))
+        else:
+            chk.expect(ok_r, "R-C15-3", "ExpressionBase.%s builds %s(self, other)" % (nm, cls_), loc(f), expected=str(want(probes[0])), found=str(got[probes[0]]))
+        # short-cuts for 0 / 1 must be algebraic identities (raising is right only where the operation is undefined)
+        bad_sc = {}
+        for x in (0, 1, 0.0, 1.0):
+            g, w = denotes(f, x), want(int(x))
+            undefined = w.has(sp.zoo, sp.nan, sp.oo)
+            if (g == "raise") != undefined or (g != "raise" and not is_zero(g - w)):
+                bad_sc[x] = (str(g), str(w))
+        chk.expect(not bad_sc, "R-C15-3", "ExpressionBase.%s constant short-cuts are identities" % nm, loc(f), expected={k: v[1] for k, v in bad_sc.items()},
+                   found={k: v[0] for k, v in bad_sc.items()})
     # ---------------------------------------------------------------- R-C15-4 sibling bookkeeping
     model = repo.cls(AML, "Model")
     mm = repo.methods(model)
@@ -452,9 +512,22 @@ def run(repo, chk):
             if pre == "_increment_":
                 addc = [c for c in calls(f) if last_attr(c) == "add_" + kind]
                 chk.expect(len(addc) == 1, "R-C15-4", "Model._increment_%s creates the C++ leaf with add_%s" % (kind, kind), loc(f), found=[call_name(c) for c in calls(f)])
-                src = unparse(f)
-                chk.expect("self._refcounts[%s] = 1" % f.args.args[1].arg in src and "self._refcounts[%s] += 1" % f.args.args[1].arg in src, "R-C15-4",
-                           "Model._increment_%s counts references (1 on creation, +1 afterwards)" % kind, loc(f))
+                # per path of the method: the path that creates the C++ leaf leaves the count at 1, every other path at <old count> + 1
+                pn = f.args.args[1].arg
+                ex_ = SymExec()
+                outs_ = [o for o in ex_.run(f, {"self": Opaque("self")}) if o.raised is None]
+                okc, seen_ = bool(outs_), set()
+                for o in outs_:
+                    creates = any(e[2][0].endswith(".add_" + kind) for e in o.calls())
+                    stv = [e[2] for e in o.stores("self._refcounts[%s]" % pn)]
+                    seen_.add(creates)
+                    try:
+                        want_ = sp.Integer(1) if creates else ex_.sym("self._refcounts[%s]" % pn) + 1
+                        okc = okc and bool(stv) and is_zero(ex_.S(stv[-1]) - want_)
+                    except ExtractError:
+                        okc = False
+                chk.expect(okc and seen_ == {True, False}, "R-C15-4", "Model._increment_%s counts references (1 on creation, +1 afterwards)" % kind, loc(f),
+                           found=[(o.label(), [str(e[2]) for e in o.stores("self._refcounts")]) for o in outs_])
             else:
                 rm = [c for c in calls(f) if last_attr(c) == "remove_" + kind]
                 chk.expect(len(rm) == 1, "R-C15-4", "Model._decrement_%s removes the C++ leaf with remove_%s when the count reaches zero" % (kind, kind), loc(f))
@@ -595,68 +668,69 @@ def _pred_table(repo):
     return tab
 
 
-def _eval_test(t, var, kind, tab):
-    """truth value of a guard for an operand of the given kind; None if unknown; 'raise' if it would fail on a native number."""
-    if isinstance(t, ast.BoolOp):
-        vals = [_eval_test(v, var, kind, tab) for v in t.values]
-        if isinstance(t.op, ast.And):
-            for v in vals:
-                if v is False:
-                    return False
-                if v in (None, "raise"):
-                    return v
-            return True
-        for v in vals:
-            if v is True:
-                return True
-            if v in (None, "raise"):
-                return v
-        return False
-    if isinstance(t, ast.UnaryOp) and isinstance(t.op, ast.Not):
-        v = _eval_test(t.operand, var, kind, tab)
-        return (not v) if isinstance(v, bool) else v
-    txt = unparse(t)
-    if txt in ("type(%s) in native_numeric_types" % var, "isinstance(%s, native_numeric_types)" % var):
-        return kind == "native"
-    if isinstance(t, ast.Call) and isinstance(t.func, ast.Attribute) and isinstance(t.func.value, ast.Name) and t.func.value.id == var and not t.args:
-        if kind == "native":
-            return "raise"
-        return tab.get((kind, t.func.attr))
-    if isinstance(t, ast.Call) and isinstance(t.func, ast.Name) and t.func.id == "isinstance" and isinstance(t.args[0], ast.Name) and t.args[0].id == var:
-        names = [e.id for e in (t.args[1].elts if isinstance(t.args[1], ast.Tuple) else [t.args[1]]) if isinstance(e, ast.Name)]
-        if kind == "native":
-            return False
-        return kind in names or (kind in ("Float", "Param", "Var") and "Leaf" in names)
-    return None
+_ATTR_ERR = "<AttributeError: node method called on a native number>"
 
 
-def _folds(body, var, kind, tab):
-    """does this statement list return an eagerly evaluated number for an operand of `kind`?  True / False / None(unknown)"""
-    for st in body:
-        if isinstance(st, ast.If):
-            v = _eval_test(st.test, var, kind, tab)
-            if v == "raise":
-                return False           # would raise at build time: no silent folding
-            if v is None:
-                a = _folds(st.body, var, kind, tab)
-                b = _folds(st.orelse, var, kind, tab) if st.orelse else "fall"
-                if a == b:
-                    if a == "fall":
-                        continue
-                    return a
-                return None
-            r = _folds(st.body if v else st.orelse, var, kind, tab)
-            if r == "fall":
-                continue
-            return r
-        if isinstance(st, ast.Return):
-            txt = unparse(st.value) if st.value is not None else ""
-            return ".operation(" in txt and ".value" in txt or (isinstance(st.value, ast.Call) and unparse(st.value.func).endswith(".operation"))
-        if isinstance(st, ast.Assign) and isinstance(st.targets[0], ast.Name) and st.targets[0].id == var:
-            # other = Float(other): from here on the operand is a Float
-            if isinstance(st.value, ast.Call) and isinstance(st.value.func, ast.Name) and st.value.func.id == "Float":
-                kind = "Float"
-    return "fall"
+def _fold_outcome(repo, fn, kind, tab):
+    """does <fn> (a _binary_operation_helper / _unary_operation_helper) return an eagerly evaluated number when the other operand is of `kind`?
+
+    The method is run abstractly: type tests and the is_*_type()/is_leaf() predicates of the operand are answered from its kind (predicate table read
+    from the classes), `Float(x)` is an operand of kind Float.  Folded = the returned value is (built from) the result of calling `<class>.operation(...)`
+    rather than an expression node.  True / False; ExtractError if paths disagree."""
+    params = [a.arg for a in fn.args.args]
+    other = params[1] if kind is not None else None
+
+    def kind_of(v):
+        if isinstance(v, (int, float)) and not isinstance(v, bool):
+            return "native"
+        if isinstance(v, Opaque):
+            if v.text == other:
+                return kind
+            m = re.match(r"^(Float|Param|Var|expression)\(", v.text)
+            if m:
+                return m.group(1)
+        return None
+
+    def hook(name, node, args, kwargs, st, ex, recv):
+        if isinstance(node.func, ast.Attribute) and node.func.attr in PREDS and not args:
+            r = recv if recv is not None else ex.ev(node.func.value, st)
+            k = kind_of(r)
+            if k == "native":
+                return Opaque(_ATTR_ERR)     # AttributeError at build time if this value is ever needed (and/or short-circuits may skip it)
+            if (k, node.func.attr) in tab:
+                return tab[(k, node.func.attr)]
+        if isinstance(node.func, ast.Attribute) and recv is not None and kind_of(recv) == "native":
+            st.conds.append((_ATTR_ERR, True))      # any other method of a native number: this path raises
+            return Opaque(_ATTR_ERR)
+        if name == "isinstance" and len(args) == 2:
+            k = kind_of(args[0])
+            names = [t.text for t in (args[1] if isinstance(args[1], (list, tuple)) else [args[1]]) if isinstance(t, Opaque)]
+            if k == "native":
+                return False
+            if k is not None and names:
+                return k in names or (k in ("Float", "Param", "Var") and "Leaf" in names) or "ExpressionBase" in names or "Node" in names
+        return NotImplemented
+
+    env = dict(native_env(repo))
+    env[params[0]] = Opaque("self")
+    if kind is not None:
+        env[other] = 2.5 if kind == "native" else Opaque(other)
+    def attr_hook(base, attr, st):
+        if kind_of(base) == "native":
+            st.conds.append((_ATTR_ERR, True))
+            return Opaque(_ATTR_ERR)
+        return NotImplemented
+
+    ex = SymExec(call_hook=native_hook(hook), attr_hook=attr_hook)
+    outs = [o for o in ex.run(fn, env) if o.raised is None and not any(_ATTR_ERR in t for t, _ in o.conds)]
+    if not outs:
+        return False               # would raise at build time: no silent folding
+    res = set()
+    for o in outs:
+        res.add(".operation(" in ex.text(o.ret) if o.ret is not None else False)
+    if len(res) != 1:
+        raise ExtractError("%s: folding not decidable for an operand of kind %s (%d paths)" % (getattr(fn, "_qual", fn.name), kind, len(outs)))
+    return res.pop()
 
 
 def fold_rules(repo, chk):
@@ -672,12 +746,8 @@ def fold_rules(repo, chk):
         fn._rel = EXPR
         fn._qual = "%s._binary_operation_helper" % owner
         chk.fn(fn)
-        var = fn.args.args[1].arg
         for kind in KINDS:
-            r = _folds(fn.body, var, kind, tab)
-            if r is None:
-                raise ExtractError("%s._binary_operation_helper: guard not decidable for an operand of kind %s" % (owner, kind))
-            folded = r is True
+            folded = _fold_outcome(repo, fn, kind, tab)
             want = cname == "Float" and kind in ("native", "Float")
             n += 1
             chk.expect(folded == want or (not folded and want), "R-C15-7",
@@ -686,8 +756,8 @@ def fold_rules(repo, chk):
                        "compiled residual / Jacobian" % (cname, kind), expected="operator node" if not want else "number or operator", found="folded" if folded else "operator")
         owner, fn = ms["_unary_operation_helper"]
         fn._rel = EXPR
-        txt = unparse(fn)
-        folded = ".operation(self.value" in txt
+        fn._qual = "%s._unary_operation_helper" % owner
+        folded = _fold_outcome(repo, fn, None, tab)
         n += 1
         chk.expect(folded == (cname == "Float") or not folded, "R-C15-7", "unary operators on a %s are %s" % (cname, "folded" if cname == "Float" else "kept as operators"), loc(fn),
                    found="folded" if folded else "operator")
@@ -758,4 +828,29 @@ WITNESSES = [
     dict(name="decrement-wrong-map", file=AML, old="            cparam = self._param_cparam_map[p]\n            p._c_obj = None", new="            cparam = self._var_cvar_map[p]\n            p._c_obj = None", rule="R-C15-4"),
     dict(name="abs-derivative-preserving", file=EXPR, old="        der = der_dict[self]\n        der_dict[self._operand1] += der * val_dict[self._operand2]\n        der_dict[self._operand2] += der * val_dict[self._operand1]",
          new="        der = der_dict[self]\n        der_dict[self._operand2] += val_dict[self._operand1] * der\n        der_dict[self._operand1] += val_dict[self._operand2] * der", silent=True),
+    # --- shape tolerance (silent=True: behaviour-preserving rewrites that must stay quiet) and the teeth of the semantic extractions
+    dict(name='rpn-alias-through-temporary', file=EXPR, old='        if self._operand.is_leaf():\n            rpn_map[self] = [leaf_ndx_map[self._operand], self.operation_enum]\n        else:\n            rpn_map[self] = _rpn = list(rpn_map[self._operand])\n            _rpn.append(self.operation_enum)\n', new='        if self._operand.is_leaf():\n            prog = [leaf_ndx_map[self._operand]]\n        else:\n            prog = rpn_map[self._operand]\n        prog.append(self.operation_enum)\n        rpn_map[self] = prog\n', rule='R-C15-8'),
+    dict(name='rpn-operand-helper-preserving', file=EXPR, old='        if self._operand.is_leaf():\n            rpn_map[self] = [leaf_ndx_map[self._operand], self.operation_enum]\n        else:\n            rpn_map[self] = _rpn = list(rpn_map[self._operand])\n            _rpn.append(self.operation_enum)\n', new='        def operand_rpn(operand):\n            if operand.is_leaf():\n                return [leaf_ndx_map[operand]]\n            return list(rpn_map[operand])\n        prog = operand_rpn(self._operand)\n        prog.append(self.operation_enum)\n        rpn_map[self] = prog\n', silent=True),
+    dict(name='rpn-ifelse-loop-preserving', file=EXPR, old='        if self._then_arg.is_leaf():\n            _rpn.append(leaf_ndx_map[self._then_arg])\n        else:\n            _rpn.extend(rpn_map[self._then_arg])\n        if self._else_arg.is_leaf():\n            _rpn.append(leaf_ndx_map[self._else_arg])\n        else:\n            _rpn.extend(rpn_map[self._else_arg])\n', new='        for arg in (self._then_arg, self._else_arg):\n            _rpn += [leaf_ndx_map[arg]] if arg.is_leaf() else rpn_map[arg]\n', silent=True),
+    dict(name='rpn-ifelse-then-else-swapped', file=EXPR, old='            _rpn.extend(rpn_map[self._then_arg])\n        if self._else_arg.is_leaf():\n            _rpn.append(leaf_ndx_map[self._else_arg])', new='            _rpn.extend(rpn_map[self._then_arg])\n        if self._else_arg.is_leaf():\n            _rpn.insert(1, leaf_ndx_map[self._else_arg])', rule='R-C15-2'),
+    dict(name='py-sign-strict-at-zero', file=EXPR, old='        if val >= 0:\n            return 1\n', new='        if val > 0:\n            return 1\n', rule='R-C15-2'),
+    dict(name='py-sign-conditional-expression-preserving', file=EXPR, old='        if val >= 0:\n            return 1\n        else:\n            return -1\n', new='        return 1 if val >= 0 else -1\n', silent=True),
+    dict(name='py-inequality-evaluate-strict', file=EXPR, old='        val_dict[self] = (self._lb.value <= body_val <= self._ub.value)\n\n    def operands', new='        val_dict[self] = (self._lb.value < body_val <= self._ub.value)\n\n    def operands', rule='R-C15-2'),
+    dict(name='py-inequality-evaluate-split-preserving', file=EXPR, old='        val_dict[self] = (self._lb.value <= body_val <= self._ub.value)\n\n    def operands', new='        lo = self._lb.value\n        val_dict[self] = (body_val >= lo and body_val <= self._ub.value)\n\n    def operands', silent=True),
+    dict(name='log-operation-is-exp', file=EXPR, old='    def operation(val):\n        return log(val)', new='    def operation(val):\n        return exp(val)', rule='R-C15-2'),
+    dict(name='negation-operation-renamed-preserving', file=EXPR, old='    def operation(val):\n        return -val', new='    def operation(x):\n        y = -x\n        return y', silent=True),
+    dict(name='rpow-order', file=EXPR, old='        return Float(other) ** self', new='        return self ** Float(other)', rule='R-C15-3'),
+    dict(name='pow-zero-shortcut', file=EXPR, old='        if other == 0:\n            return 1\n        elif other == 1:\n            return self\n        return self._binary_operation_helper(other, PowerOperator)', new='        if other == 0:\n            return self\n        elif other == 1:\n            return self\n        return self._binary_operation_helper(other, PowerOperator)', rule='R-C15-3'),
+    dict(name='sub-builds-add', file=EXPR, old='        return self._binary_operation_helper(other, SubtractOperator)', new='        return self._binary_operation_helper(other, AddOperator)', rule='R-C15-3'),
+    dict(name='radd-commuted-preserving', file=EXPR, old='        return Float(other) + self', new='        return self + Float(other)', silent=True),
+    dict(name='mul-shortcut-conditional-expression-preserving', file=EXPR, old='        if other == 0:\n            return 0\n        elif other == 1:\n            return self\n        return self._binary_operation_helper(other, MultiplyOperator)', new='        if other == 0:\n            return 0\n        res = self if other == 1 else self._binary_operation_helper(other, MultiplyOperator)\n        return res', silent=True),
+    dict(name='truediv-class-level-alias-preserving', file=EXPR, old="    def __truediv__(self, other):\n        if other == 0:\n            raise ValueError('Divide by 0')\n        elif other == 1:\n            return self\n        return self._binary_operation_helper(other, DivideOperator)\n\n    def __div__(self, other):", new="    def __div__(self, other):\n        if other == 0:\n            raise ValueError('Divide by 0')\n        elif other == 1:\n            return self\n        return self._binary_operation_helper(other, DivideOperator)\n\n    __truediv__ = __div__\n\n    def __old_div__(self, other):", silent=True),
+    dict(name='leaf-folds-native-operand', file=EXPR, old='        if type(other) in native_numeric_types:\n            other = Float(other)\n        new_operator = cls(self, other.last_node())', new='        if type(other) in native_numeric_types:\n            return cls.operation(self.value, other)\n        new_operator = cls(self, other.last_node())', rule='R-C15-7'),
+    dict(name='float-folds-params-through-temporaries', file=EXPR, old='        elif other.is_float_type():\n            return cls.operation(self.value, other.value)', new='        elif not other.is_variable_type() and other.is_leaf():\n            a = self.value\n            b = other.value\n            res = cls.operation(a, b)\n            return res', rule='R-C15-7'),
+    dict(name='float-fold-merged-guard-preserving', file=EXPR, old='        if type(other) in native_numeric_types:\n            return cls.operation(self.value, other)\n        elif other.is_float_type():\n            return cls.operation(self.value, other.value)\n', new='        if type(other) in native_numeric_types or other.is_float_type():\n            rhs = other if type(other) in native_numeric_types else other.value\n            folded = cls.operation(self.value, rhs)\n            return folded\n', silent=True),
+    dict(name='float-helper-conditional-expression-preserving', file=EXPR, old='        new_operator = cls(self, other.last_node())\n        if other.is_leaf():\n            expr = expression()\n        else:\n            expr = expression(other)\n        expr.append_operator(new_operator)\n        return expr\n\n    def _unary_operation_helper(self, cls):\n        return cls.operation(self.value)', new='        new_operator = cls(self, other.last_node())\n        expr = expression() if other.is_leaf() else expression(other)\n        expr.append_operator(new_operator)\n        return expr\n\n    def _unary_operation_helper(self, cls):\n        v = self.value\n        return cls.operation(v)', silent=True),
+    dict(name='inequality-diff-down-adds', file=EXPR, old='        val_dict[self] = inequality(body_val, self._lb.value, self._ub.value)\n\n    def diff_down(self, val_dict, der_dict):\n        pass', new='        val_dict[self] = inequality(body_val, self._lb.value, self._ub.value)\n\n    def diff_down(self, val_dict, der_dict):\n        der_dict[self._body] += der_dict[self]', rule='R-C15-3'),
+    dict(name='inequality-diff-down-return-none-preserving', file=EXPR, old='        val_dict[self] = inequality(body_val, self._lb.value, self._ub.value)\n\n    def diff_down(self, val_dict, der_dict):\n        pass', new='        val_dict[self] = inequality(body_val, self._lb.value, self._ub.value)\n\n    def diff_down(self, val_dict, der_dict):\n        return None', silent=True),
+    dict(name='refcount-created-at-zero', file=AML, old='            self._refcounts[var] = 1\n', new='            self._refcounts[var] = 0\n', rule='R-C15-4'),
+    dict(name='refcount-early-return-preserving', file=AML, old='            self._refcounts[f] = 1\n        else:\n            self._refcounts[f] += 1\n            cfloat = self._float_cfloat_map[f]\n        return cfloat', new='            n = 1\n            self._refcounts[f] = n\n            return cfloat\n        cfloat = self._float_cfloat_map[f]\n        self._refcounts[f] = self._refcounts[f] + 1\n        return cfloat', silent=True),
 ]
